@@ -138,7 +138,7 @@ PROPS = {
         "components": ["kinesis"],
         "required_theorems": ["PgBifrost.Props.C11.kinesis_written_all_accepted", "PgBifrost.Props.C11.kinesis_retry_exact",
                               "PgBifrost.Props.C11.kinesis_no_report_on_giveup", "PgBifrost.Props.C11.compact_eq_filter",
-                              "PgBifrost.Props.C11.kinesis_attempt_as_in_source"],
+                              "PgBifrost.Props.C11.kinesis_attempt_as_in_source", "PgBifrost.Props.C11.kinesis_iteration_as_in_source"],
         "assumptions": ["AwsContract: every PutRecords answer has one result entry per request entry and FailedRecordCount = "
                         "number of entries with an error code (hypothesis of kinesis_written_all_accepted only; "
                         "kinesis_written_needs_contract_witness shows it is needed)",
